@@ -245,7 +245,7 @@ def run_c31(ctx, replay):
         scheds = [json.load(open(replay))["schedule"]]
     else:
         gcfg = consts + "CONSTANT Defect = \"%s\"\nINIT Init\nNEXT Next\nINVARIANT LawsHold\nINVARIANT C31\n"
-        mc, states = dump_states(ctx, "Gen_ConfigMerge", gcfg % "none", keep=lambda s: s["ph"] == "in", workers=4)
+        mc, states = dump_states(ctx, "Gen_ConfigMerge", gcfg % "none", keep=lambda s: s["ph"] == "in", workers=2)
         if mc.violated:
             raise vlib.Inconclusive("the merge definition violates %s -- spec error, no verdict" % mc.violated)
         for d in ("never_merged", "shared_tags"):
@@ -289,7 +289,7 @@ def run_c09(ctx, replay):
         scheds = [json.load(open(replay))["schedule"]]
     else:
         gcfg = consts + "CONSTANT Defect = \"%s\"\nINIT Init\nNEXT Next\nINVARIANT C09\nINVARIANT WellFormed\n"
-        mc, states = dump_states(ctx, "Gen_MsgShapes", gcfg % "none", keep=lambda s: s["ph"] == "in", workers=4)
+        mc, states = dump_states(ctx, "Gen_MsgShapes", gcfg % "none", keep=lambda s: s["ph"] == "in", workers=2)
         if mc.violated:
             raise vlib.Inconclusive("the model violates %s -- spec error, no verdict" % mc.violated)
         expect_model_violation(ctx, "Gen_MsgShapes", gcfg % "code", "code as found")
@@ -342,7 +342,7 @@ def run_c32(ctx, replay):
         scheds = [json.load(open(replay))["schedule"]]
     else:
         gcfg = consts + "CONSTANT Defect = \"%s\"\nINIT Init\nNEXT Next\nINVARIANT C32\nINVARIANT %s\n"
-        mc, states = dump_states(ctx, "Gen_TagCodec", gcfg % ("none", "Laws"), keep=lambda s: s["ph"] == "in", workers=4)
+        mc, states = dump_states(ctx, "Gen_TagCodec", gcfg % ("none", "Laws"), keep=lambda s: s["ph"] == "in", workers=2)
         if mc.violated:
             raise vlib.Inconclusive("the codec definition violates %s -- spec error, no verdict" % mc.violated)
         expect_model_violation(ctx, "Gen_TagCodec", gcfg % ("code", "Laws"), "role starting with the magic byte under protocol 2")
@@ -494,10 +494,11 @@ def run_c27(ctx, replay):
     if replay:
         scheds = [json.load(open(replay))["schedule"]]
     else:
-        mc, states = dump_states(ctx, "Gen_HandlerContract", "INIT Init\nNEXT Next\nINVARIANT C27\nINVARIANT Laws\n",
-                                 keep=lambda s: s["ph"] == "in", workers=2)
+        gcfg = "CONSTANT Defect = \"%s\"\nINIT Init\nNEXT Next\nINVARIANT C27\nINVARIANT Laws\n"
+        mc, states = dump_states(ctx, "Gen_HandlerContract", gcfg % "none", keep=lambda s: s["ph"] == "in", workers=2)
         if mc.violated:
             raise vlib.Inconclusive("the contract definition violates %s -- spec error, no verdict" % mc.violated)
+        expect_model_violation(ctx, "Gen_HandlerContract", gcfg % "per_item", "one run per matching filter item")
         inputs = sorted((s["inp"] for s in states), key=lambda i: json.dumps(i, sort_keys=True))
         scheds = [[i] for i in inputs]
     tp = execute(ctx, binary, "handler", scheds, "h", timeout=3000)
